@@ -249,12 +249,12 @@ def load_known():
 
 def match_known(prop, clauses, replay, known):
     """A violation (set of clause ids + its replay descriptor) is known iff a
-    finding with status 'known' lists one of its clauses and all key/value
+    finding with status 'known' lists every one of its clauses and all key/value
     pairs of its 'where' filter are found in the replay's scenario."""
     for k in known:
         if k.get("property") != prop or k.get("status") != "known":
             continue
-        if not (set(k.get("clauses", [])) & set(clauses)):
+        if not clauses or not (set(clauses) <= set(k.get("clauses", []))):
             continue
         where = k.get("where", {})
         sc = (replay or {}).get("scenario", replay or {}) or {}
